@@ -373,7 +373,7 @@ READER_EXEMPT = {
     # ---- events/attributes.rs (ranges are produced by IterState over the same slice, see C11)
     "Iterator>::next{c0}|index-range|index(&(*_.0), range)": "Attr ranges are produced by IterState::next over self.bytes (C11 R1: every range bound is an index found in that slice)",
     "IterState::skip_value|index-range|index(&slice, RangeFrom::RangeFrom(offset))": "offset is the payload of State::SkipValue, an index found in the same slice by the previous next() (C11 R1 state table)",
-    "IterState::skip_eq_value|index-range|index(&slice, RangeFrom::RangeFrom(offset))": "offset is the payload of State::SkipEqValue, the index of '=' found in the same slice (C11 R1 state table)",
+    "IterState::skip_eq_value|index-range|index(&slice, RangeFrom::RangeFrom((offset Add 1)))": "offset is the payload of State::SkipEqValue, the index of an '=' found in the same slice (C11 R1 `next:Duplicated`), so offset + 1 <= len",
     "IterState::check_for_duplicates{c0}|index-range|index(&(*_.0), Clone>::clone(&r))": "recorded key ranges come from the same slice",
     "IterState::check_for_duplicates{c0}|index-range|index(&(*_.0), Clone>::clone(&(*_.1)))": "the key range was just produced from the same slice",
     "IterState::next|index-range|index(&slice, RangeFrom::RangeFrom(IterState::recover(..) as Some.0))": "recover() returns a state payload or an index found by a search in the same slice",
